@@ -110,6 +110,10 @@ func main() {
 		behaviour{name: "flush-then-write(x)+return(0,nil)", script: "flush;write:x;ret:0", wrote: true, status: 200, body: "x"},
 		behaviour{name: "flush-then-write(5k)+return(0,err)", script: "flush;write:5000xt;ret:0:boom", wrote: true, status: 200, body: big, retErr: true})
 	// (a handler that flushes and then returns an error status breaks the handler contract itself: not in the alphabet)
+	// a response that asks `internal` for a redirect to a path that answers in the same way, for ever (with a Content-Length
+	// on every discarded answer); without `internal` on the site it is an ordinary response
+	accel := behaviour{name: "internal-redirect-loop(Content-Length set)", script: "hdr:X-Accel-Redirect=/x;hdr:Content-Length=5;status:200;write:hello;ret:0", wrote: true, status: 200, body: "hello"}
+	behaviours = append(behaviours, accel)
 	// a response that is a template which parses but fails when executed (only meaningful behind templates)
 	tplErr := `{{.Include "missing-file"}}`
 	behaviours = append(behaviours,
@@ -226,6 +230,9 @@ func main() {
 					case b.panics == "after":
 						expStatus = 200
 						class = "panic-after-writing"
+					case b.name == accel.name && has["internal"] != "":
+						expStatus = 500
+						class = "internal-redirect-loop"
 					case b.wrote && b.body == tplErr && p == "/t.html" && has["templates"] != "":
 						expStatus = 500
 						class = "template-execution-error"
@@ -249,11 +256,11 @@ func main() {
 					if cl := rec.Snap.Get("Content-Length"); cl != "" && cl != fmt.Sprint(rec.Body.Len()) && rec.Status != 204 && rec.Status != 304 {
 						fail("content-length-mismatch/"+class, fmt.Sprintf("Content-Length %s equal to the %d body bytes sent", cl, rec.Body.Len()))
 					}
-					if class == "error-status-returned" || class == "panic-before-writing" || class == "template-execution-error" || (intercepted != 0) {
+					if class == "error-status-returned" || class == "panic-before-writing" || class == "template-execution-error" || class == "internal-redirect-loop" || (intercepted != 0) {
 						if strings.TrimSpace(body) == "" {
 							fail("error-without-body/"+class, "an error body")
 						}
-						if customPages && !(visible) && class != "panic-before-writing" && class != "template-execution-error" {
+						if customPages && !(visible) && class != "panic-before-writing" && class != "template-execution-error" && class != "internal-redirect-loop" {
 							want := "GENERIC-ERROR-PAGE"
 							if expStatus == 404 {
 								want = "CUSTOM-404-PAGE"
